@@ -1146,12 +1146,14 @@ def gen_tcase(rng, kind):
     cfg.pop("range_first", None)
     cfg.pop("threshold", None)
     ntask = rng.choice([2, 3, 3, 4])
-    starts = rng.sample([1000, 1040, 1100, 1170, 1250], ntask)
+    # the forest the options were made for (it starts near 1000) is one of the tasks, at any position
+    starts = rng.sample([880, 940, 1060, 1150, 1250], ntask - 1)
     fs = []
     for st in starts:
         g = forest.gen_shape(rng, NFUN, rng.choice([3, 6, 10]), rng.choice([2, 3, 4]))
         forest.assign_times(rng, g, t0=st, durs=(1, 2, 3, 9, 10, 11, 99, 100, 101, 200))
         fs.append(g)
+    fs.insert(rng.randrange(ntask), f)
     firsts = [min(c.t0 for c in fcalls(g)) for g in fs]
     origin = min(firsts)
     owner = firsts.index(origin)
@@ -1473,7 +1475,7 @@ def run(ctx):
     for key, what, cfg, f, differs in w1:
         todo.append(("witness:" + key, cfg, f, ["witness:" + key]))
     todo += corpus1()
-    n = ctx.n(6, 75)
+    n = ctx.n(5, 75)
     for kind in KINDS:
         for _ in range(n if kind != "plain" else 3):
             cfg, f, tags = gen_case(rng, kind)
